@@ -21,6 +21,10 @@ MIXTURES = {
     'tiny-dry': [('nacl', '12.3 nmol')],
     # a trace solute: concentrations that are tiny in base units (250 nM)
     'trace-binary': [('water', '10 mL'), ('nacl', '2.5 nmol')],
+    # parts that measure EXACTLY the same in one unit (equimolar solutes; equal volumes of two liquids): what a vessel holds is a
+    # sum over its parts, not over the distinct values among them
+    'equimolar': [('water', '10 mL'), ('nacl', '2 mmol'), ('na2so4', '2 mmol')],
+    'equal-volumes': [('water', '5 mL'), ('dmso', '5 mL'), ('nacl', '3 mmol')],
 }
 DIL_UNITS = ['M', 'mM', 'm', 'mol/L', 'mmol/mL', 'g/L', 'g/mL', 'g/g', 'g/kg', 'mol/mol', 'L/L', 'mL/L', '%w/w', '%v/v', '%w/v',
              'mg/10 mL', 'umol/10 uL']
@@ -401,7 +405,7 @@ def run(col):
     pp = env.load()
     col.rule = ("every request with an unlimited or a just-too-small vessel is also made as a recipe step (uses, dilute / "
                 "fill_to, bake): same outcome, same container as the direct call. " +
-                "7 mixture classes (binary, solvent absent, ternary with a second liquid / second solid, enzyme bystander, liquid "
+                "9 mixture classes (binary, solvent absent, ternary with a second liquid / second solid, equimolar / equal-volume parts, enzyme bystander, liquid "
                 "solute, solids only) x solute x solvent (present / other) x 17 concentration spellings x target factors "
                 "{0.1, 0.5, 0.9, 1, 1.1, 2} x current x capacity {inf, ample, just enough, just short}; fill_to: 10 unit "
                 "spellings x {0.5, 1, 1.5, 3} x current x capacities x solvent {water, other liquid, enzyme by mass}. Targets are "
